@@ -1,6 +1,8 @@
 package num
 
 import (
+	"os"
+	"math"
 	"fmt"
 	"go/constant"
 	"go/token"
@@ -971,7 +973,93 @@ func (e *Engine) loopTerminates(fr *frame, l *loopInfo) (bool, string) {
 		}
 		tried = append(tried, c.name)
 	}
+	if ok, why := e.floatGeometric(fr, l); ok {
+		return true, why
+	}
 	return false, "no strictly monotone bounded variant found among {" + strings.Join(tried, ",") + "}"
+}
+
+// floatGeometric recognises `for x >= C { x /= c }` on a floating-point variable: the header continues
+// exactly while a float phi compares >= (or >) a positive constant C, every back edge carries phi / c with
+// a constant c >= 2, and the value entering the loop has a finite upper bound K unless it is a NaN (a NaN
+// fails the comparison at once). The loop then runs at most log_c(K/C) + 1 times.
+func (e *Engine) floatGeometric(fr *frame, l *loopInfo) (bool, string) {
+	h := l.header
+	iff, ok := h.Instrs[len(h.Instrs)-1].(*ssa.If)
+	if !ok || !l.blocks[h.Succs[0].Index] || l.blocks[h.Succs[1].Index] {
+		return false, e.dbg("FG1", fr.fn.Name())
+	}
+	cmp, ok := iff.Cond.(*ssa.BinOp)
+	if !ok || (cmp.Op != token.GEQ && cmp.Op != token.GTR) {
+		return false, e.dbg("FG2", fr.fn.Name())
+	}
+	phi, ok := cmp.X.(*ssa.Phi)
+	k, ok2 := cmp.Y.(*ssa.Const)
+	if !ok || !ok2 || phi.Block() != h || k.Value == nil {
+		return false, e.dbg("FG3", fr.fn.Name())
+	}
+	if b, isB := phi.Type().Underlying().(*types.Basic); !isB || b.Info()&types.IsFloat == 0 {
+		return false, e.dbg("FG4", fr.fn.Name())
+	}
+	cv, _ := constant.Float64Val(constant.ToFloat(k.Value))
+	if !(cv > 0) {
+		return false, e.dbg("FG5", fr.fn.Name())
+	}
+	var bound *FBound
+	div := 0.0
+	for i, p := range h.Preds {
+		if h.Dominates(p) {
+			q, ok := phi.Edges[i].(*ssa.BinOp)
+			if !ok || (q.Op != token.QUO && q.Op != token.MUL) {
+				return false, ""
+			}
+			other := q.Y
+			if q.X != ssa.Value(phi) {
+				if q.Op != token.MUL || q.Y != ssa.Value(phi) {
+					return false, ""
+				}
+				other = q.X
+			}
+			c, ok := other.(*ssa.Const)
+			if !ok || c.Value == nil {
+				return false, ""
+			}
+			d, _ := constant.Float64Val(constant.ToFloat(c.Value))
+			if q.Op == token.MUL {
+				if !(d > 0 && d <= 0.5) {
+					return false, ""
+				}
+				d = 1 / d
+			}
+			if !(d >= 2) {
+				return false, ""
+			}
+			if div == 0 || d < div {
+				div = d
+			}
+			continue
+		}
+		es := fr.edges[edgeKey{p.Index, h.Index}]
+		if es == nil || es.dead {
+			continue
+		}
+		b, has := e.floatUB(fr, phi.Edges[i], es, 0)
+		if !has {
+			return false, e.dbg("FG9", fr.fn.Name())
+		}
+		if bound == nil || b.Val > bound.Val {
+			bb := b
+			bound = &bb
+		}
+	}
+	if bound == nil || div == 0 || math.IsInf(bound.Val, 0) || math.IsNaN(bound.Val) {
+		return false, e.dbg("FG10", fr.fn.Name())
+	}
+	n := 1
+	for v := bound.Val; v >= cv && n < 4096; v /= div {
+		n++
+	}
+	return true, fmt.Sprintf("floating-point loop `for x %s %g { x /= %g }`: the value entering the loop is a NaN (the comparison fails at once) or at most %g, so the loop runs at most %d times", cmp.Op, cv, div, bound.Val, n)
 }
 
 func mentions(s *State, a Atom) bool {
@@ -1323,4 +1411,51 @@ func (e *Engine) assumeFloatCond(st *State, c *ssa.BinOp, outcome bool) {
 	if old, ok := st.fub[id]; !ok || b.Val < old.Val || b.Val == old.Val && b.Strict {
 		st.fub[id] = b
 	}
+}
+
+// floatUB: an upper bound of the floating-point value v in state st that holds unless v is a NaN: a constant,
+// a bound recorded from a dominating comparison, or the largest bound over the edges of a merge phi.
+func (e *Engine) floatUB(fr *frame, v ssa.Value, st *State, depth int) (FBound, bool) {
+	if depth > 4 {
+		return FBound{}, false
+	}
+	if c, isC := v.(*ssa.Const); isC && c.Value != nil {
+		f, _ := constant.Float64Val(constant.ToFloat(c.Value))
+		return FBound{f, false}, true
+	}
+	if fb, ok := st.fub[e.vid(v)]; ok {
+		return fb, true
+	}
+	if phi, isPhi := v.(*ssa.Phi); isPhi {
+		b := phi.Block()
+		if _, isHeader := fr.loops[b.Index]; isHeader {
+			return FBound{}, false
+		}
+		var out *FBound
+		for i, p := range b.Preds {
+			es := fr.edges[edgeKey{p.Index, b.Index}]
+			if es == nil || es.dead {
+				continue
+			}
+			fb, ok := e.floatUB(fr, phi.Edges[i], es, depth+1)
+			if !ok {
+				return FBound{}, false
+			}
+			if out == nil || fb.Val > out.Val {
+				x := fb
+				out = &x
+			}
+		}
+		if out != nil {
+			return *out, true
+		}
+	}
+	return FBound{}, false
+}
+
+func (e *Engine) dbg(tag, fn string) string {
+	if os.Getenv("NUMDEBUG") != "" {
+		fmt.Fprintln(os.Stderr, "dbg", tag, fn)
+	}
+	return ""
 }
